@@ -387,7 +387,7 @@ func (c *Cache) GnmiUpdate(n *pb.Notification) error {
 func (t *Target) GnmiUpdate(n *pb.Notification) error {
 	updateTS := false
 	if u := n.GetUpdate(); len(u) > 0 {
-		if p := u[0].GetPath().GetElem(); len(p) > 0 && p[0].GetName() != metadata.Root {
+		if first, ok := firstIndex(n.GetPrefix(), u[0].GetPath()); ok && first != metadata.Root {
 			// Record latest timestamp from the device, excluding all 'meta' paths.
 			defer func(ts int64) {
 				if updateTS {
@@ -483,6 +483,24 @@ func (t *Target) GnmiUpdate(n *pb.Notification) error {
 		t.meta.AddInt(metadata.EmptyCount, 1)
 	}
 	return nil
+}
+
+// firstIndex returns the first index string of prefix joined with path (the
+// prefix origin, else the first path element in either the elem or the
+// deprecated element encoding) and whether there is one.
+func firstIndex(prefix, path *pb.Path) (string, bool) {
+	if o := prefix.GetOrigin(); o != "" {
+		return o, true
+	}
+	for _, p := range []*pb.Path{prefix, path} {
+		if e := p.GetElem(); len(e) > 0 {
+			return e[0].GetName(), true
+		}
+		if e := p.GetElement(); len(e) > 0 {
+			return e[0], true
+		}
+	}
+	return "", false
 }
 
 func (t *Target) checkTimestamp(ts time.Time) {
